@@ -239,6 +239,19 @@ theorem rebuild_identity_defective (w : Wrapper) (hs : shapeOk (lookupSd w) w = 
     unfold badFields
     exact List.mem_map.mpr ⟨fd, List.mem_filter.mpr ⟨hfd, by simp [hrel, hg]⟩, rfl⟩
 
+/-- `convs_justified`: the model's assumption about the converters (`convFor`: `To<T>` is the identity
+    on what `Get` produces from a field of static type T) is checked against the regenerated case
+    tables of ast2/unwrap.go for every (converter, type, wrapper) triple the table uses. -/
+theorem convs_justified :
+    ((usedConvs lookupSd Gen.wrappers).all (fun t =>
+        !convOk t.2.1 t.1 || convJustified ctx Gen.wrappers Gen.convs t.1 t.2.1 t.2.2)) = true := by
+  decide +kernel
+
+/-- every converter the source uses in a `Set`/`Append` is the one the model expects for that type -/
+theorem convs_used_are_known :
+    ((usedConvs lookupSd Gen.wrappers).all (fun t => convOk t.2.1 t.1)) = true := by
+  decide +kernel
+
 /-- go/ast node structs without a `ToAst` arm -/
 def missingArms : List String :=
   (Gen.structs.filter (fun sd => (toAstWrapper ctx sd.name).isNone)).map (·.name)
